@@ -53,7 +53,7 @@ Section AnyDomain.
   Context (activity_units mass_units moles_units : list (str * T)).
   Context (avogadro : T) (names : list str) (decay_consts atomic_masses : list T).
   Variables (amount_ok : T -> bool) (normalise nneg : T -> T).
-  Notation step := (step ops activity_units mass_units moles_units avogadro names decay_consts atomic_masses amount_ok normalise nneg).
+  Notation step := (Inventory.step ops activity_units mass_units moles_units avogadro names decay_consts atomic_masses amount_ok normalise nneg).
 
   (* a mutating call (add, subtract, remove, remove of a list) that raises leaves the inventory as it was *)
   Theorem step_atomic : forall a o a' e, step a o = (a', Some e) -> a' = a.
